@@ -1546,10 +1546,17 @@ def classes_stream(ctx, n_rounds):
         if cls not in CLASS_STREAMS:
             ctx.fail("correspondence", "C19.align-class-without-stream", witness={"class": full_name},
                      expected="a stream in CLASS_STREAMS", got="none")
-    for _ in range(n_rounds):
+    for rnd in range(n_rounds):
         pool = rng.sample(NAMES, 5)
-        szs = rng.sample([2, 3, 4, 5], 4) + [rng.choice([1, 2])]
-        size = dict(zip(pool, szs))                       # pairwise different (except the 5th)
+        # two regimes: pairwise DIFFERENT sizes expose domain mix-ups; ALL-EQUAL sizes expose data
+        # mix-ups that different sizes would turn into shape errors (declines)
+        regime = "different" if rnd % 2 == 0 else "equal"
+        if regime == "different":
+            szs = rng.sample([2, 3, 4, 5], 4) + [rng.choice([1, 2])]
+        else:
+            szs = [rng.choice([2, 3])] * 5
+        size = dict(zip(pool, szs))
+        ctx.count(f"classes:regime={regime}")
 
         def tens(keys, off=0.0, dtype="real"):
             shape = tuple(size[k] for k in keys)
@@ -1559,7 +1566,15 @@ def classes_stream(ctx, n_rounds):
             return Tensor(np.arange(nel).reshape(shape), OrderedDict((k, Bint[size[k]]) for k in keys), nel)
 
         def names_for(keys, k_full=3, k_part=3):
-            out = [tuple(p) for p in rng.sample(list(itertools.permutations(keys)), min(k_full, len(list(itertools.permutations(keys)))))]
+            # any permutation test needs a NON-INVOLUTIVE permutation: with >= 3 keys both rotations
+            # (the n-cycles) are always included; with exactly 3 keys all 6 permutations are
+            perms = list(itertools.permutations(keys))
+            if len(keys) == 3:
+                out = [tuple(p) for p in perms]
+            else:
+                out = [tuple(p) for p in rng.sample(perms, min(k_full, len(perms)))]
+                if len(keys) >= 3:
+                    out += [tuple(keys[1:] + keys[:1]), tuple(keys[-1:] + keys[:-1])]
             for _ in range(k_part):
                 m = rng.randint(0, max(0, len(keys) - 1))
                 out.append(tuple(rng.sample(keys, m)))
@@ -1631,8 +1646,10 @@ def classes_stream(ctx, n_rounds):
             const["rr"] = Real
         xk = Constant(const, tens(akeys, 1.0))
         allc = list(const)
-        for _ in range(6):
-            cperm = rng.sample(allc, len(allc))
+        cperms = [list(p) for p in itertools.permutations(allc)]
+        if len(cperms) > 8:
+            cperms = rng.sample(cperms, 6) + [allc[1:] + allc[:1], allc[-1:] + allc[:-1]]
+        for cperm in cperms:
             names = tuple(cperm) + tuple(rng.sample(akeys, rng.randint(0, len(akeys))))
             wit = {"stream": "classes", "class": "Constant", "const_inputs": [(k, str(d)) for k, d in const.items()],
                    "arg_inputs": [(k, size[k]) for k in akeys], "names": list(names)}
@@ -1649,7 +1666,7 @@ def classes_stream(ctx, n_rounds):
         pts = [Number(1.5), Tensor(np.array([0.5, 1.5])), Tensor(np.array([1.0, 2.0, 3.0]))]
         rng.shuffle(pts)
         xd = Delta(tuple((k, (p, Number(0.0))) for k, p in zip(dn, pts)))
-        for names in [tuple(rng.sample(dn, 3)) for _ in range(3)]:
+        for names in [tuple(p) for p in itertools.permutations(dn)]:
             wit = {"stream": "classes", "class": "Delta", "terms": [(k, str(p.output)) for k, p in zip(dn, pts)],
                    "names": list(names)}
             y = run(lambda: xd.align(names))
@@ -1664,26 +1681,39 @@ def classes_stream(ctx, n_rounds):
             ctx.count("classes:Delta")
             ctx.case(nontrivial_key=("cls", "Delta", str(wit)))
         # ---- Gaussian (also C12's): int inputs of different sizes, real inputs of different shapes ---
-        gi = rng.sample(pool[:4], 2)
-        ginputs = [(gi[0], Bint[size[gi[0]]]), ("x", Real), (gi[1], Bint[size[gi[1]]]), ("y", Reals[2])]
+        gi = rng.sample(pool[:4], 3 if regime == "equal" or rng.random() < 0.5 else 2)
+        if regime == "different":
+            gsz = dict(zip(gi, rng.sample([2, 3, 4], len(gi))))
+        else:
+            gsz = {k: size[k] for k in gi}
+        ginputs = [(k, Bint[gsz[k]]) for k in gi] + [("x", Real), ("y", Reals[2])]
         rng.shuffle(ginputs)
         bshape = tuple(d.size for _, d in ginputs if d.dtype != "real")
         nb_ = int(np.prod(bshape))
-        wv = (np.arange(nb_ * 3.0).reshape(bshape + (3,)) % 7) / 10
-        ps = np.broadcast_to(np.eye(3), bshape + (3, 3)).copy() + (np.arange(nb_ * 9.0).reshape(bshape + (3, 3)) % 5) / 50
+        # distinct entries at every batch index, so a mis-permuted batch dim is visible
+        wv = np.arange(nb_ * 3.0).reshape(bshape + (3,)) / (nb_ * 3.0)
+        ps = np.broadcast_to(np.eye(3), bshape + (3, 3)).copy() + np.arange(nb_ * 9.0).reshape(bshape + (3, 3)) / (nb_ * 36.0)
         xg = Gaussian(wv, ps, OrderedDict(ginputs))
         keys = [k for k, _ in ginputs]
-        rp = {"x": Tensor(np.array(0.5)), "y": Tensor(np.array([0.1, -0.2]))}
-        for names in names_for(keys, 2, 1):
+        rp = {"x": Tensor(np.array(rng.choice([0.5, -0.25, 1.0]))),
+              "y": Tensor(np.array([rng.choice([0.1, 0.4]), rng.choice([-0.2, 0.3])]))}
+        gnames = [tuple(p) for p in itertools.permutations(gi)]          # every batch permutation (partial names)
+        for p in rng.sample(gnames, min(3, len(gnames))):               # and full ones with the reals interleaved
+            full = list(p)
+            for rk in ("x", "y"):
+                full.insert(rng.randint(0, len(full)), rk)
+            gnames.append(tuple(full))
+        for names in gnames:
             wit = {"stream": "classes", "class": "Gaussian", "inputs": [(k, str(d)) for k, d in ginputs], "names": list(names)}
             y = run(lambda: xg.align(names))
             if y[0] == "raise":
                 ctx.count("classes:Gaussian:declined")
                 continue
-            if check_aligned(ctx, "Gaussian", xg, y[1], names, {k: size[k] for k in gi}, rp, wit,
-                             sum_op=ops.logaddexp, tol=1e-9):
+            if check_aligned(ctx, "Gaussian", xg, y[1], names, gsz, rp, wit,
+                             sum_op=ops.logaddexp, tol=1e-9, max_points=64):
                 ctx.case(nontrivial_key=("cls", "Gaussian", str(wit)))
             ctx.count("classes:Gaussian")
+            ctx.count(f"classes:Gaussian:batch-inputs={len(gi)}")
 
 
 # ------------------------------------------------------------------------------------------
